@@ -1088,3 +1088,18 @@ func (c *Client) stepBatchGet(op adapt.Op, got adapt.Outcome) []Diff {
 	}
 	return nil
 }
+
+// QuirkNames returns the names of the listed quirks that explain the difference between two items.
+func QuirkNames(got, want val.Item) []string {
+	out := []string{}
+	if val.ItemsEqual(got, want) {
+		return out
+	}
+	for _, q := range Quirks {
+		if val.ItemsEqual(normItem(got, q), normItem(want, q)) {
+			out = append(out, q.Name)
+			break
+		}
+	}
+	return out
+}
